@@ -1,5 +1,6 @@
 import ActixModel.Proofs.Negotiate
 import ActixModel.Proofs.Encoder
+import ActixModel.Proofs.Decoder
 /-
 C13 — content coding is lossless, correctly labelled and correctly negotiated.
 
@@ -9,7 +10,7 @@ the `Compress` middleware) and `Model/Encoder.lean` (`Encoder::response`, `updat
 (`Lossless`).  Every theorem quantifies over all headers / bodies / chunkings / schedules.
 -/
 namespace ActixModel.C13
-open ActixModel.Util ActixModel.Negotiate ActixModel.Encoder
+open ActixModel.Util ActixModel.Negotiate ActixModel.Encoder ActixModel.Decoder
 
 /-! ## Spec: RFC 7231 §5.3.4 -/
 
@@ -32,7 +33,7 @@ def permits (ae : AE) (c : Coding) : Prop :=
 instance (ae : AE) (c : Coding) : Decidable (permits ae c) := by
   unfold permits; infer_instance
 
-theorem mem_explicitQs {ae : AE} {c : Coding} {q : Nat} :
+theorem C13_aux_mem_explicitQs {ae : AE} {c : Coding} {q : Nat} :
     q ∈ explicitQs ae c ↔ (⟨.specific c, q⟩ : QItem) ∈ ae := by
   simp only [explicitQs, List.mem_map, List.mem_filter, decide_eq_true_eq]
   constructor
@@ -42,7 +43,7 @@ theorem mem_explicitQs {ae : AE} {c : Coding} {q : Nat} :
   · intro h
     exact ⟨⟨.specific c, q⟩, ⟨h, rfl⟩, rfl⟩
 
-theorem mem_starQs {ae : AE} {q : Nat} : q ∈ starQs ae ↔ (⟨.any, q⟩ : QItem) ∈ ae := by
+theorem C13_aux_mem_starQs {ae : AE} {q : Nat} : q ∈ starQs ae ↔ (⟨.any, q⟩ : QItem) ∈ ae := by
   simp only [starQs, List.mem_map, List.mem_filter, decide_eq_true_eq]
   constructor
   · rintro ⟨⟨i, q'⟩, ⟨hm, hi⟩, hq⟩
@@ -51,14 +52,14 @@ theorem mem_starQs {ae : AE} {q : Nat} : q ∈ starQs ae ↔ (⟨.any, q⟩ : QI
   · intro h
     exact ⟨⟨.any, q⟩, ⟨h, rfl⟩, rfl⟩
 
-theorem isIdentityItem_iff (qi : QItem) : isIdentityItem qi = true ↔ qi.item = .specific .identity := by
+theorem C13_aux_isIdentityItem_iff (qi : QItem) : isIdentityItem qi = true ↔ qi.item = .specific .identity := by
   simp [isIdentityItem]
 
-theorem isAnyItem_iff (qi : QItem) : isAnyItem qi = true ↔ qi.item = .any := by
+theorem C13_aux_isAnyItem_iff (qi : QItem) : isAnyItem qi = true ↔ qi.item = .any := by
   simp [isAnyItem]
 
 /-- the identity test of `negotiate`, run on the ranked list, is exactly the RFC's rule -/
-theorem identityAcceptable_iff (ae : AE) :
+theorem C13_aux_identityAcceptable_iff (ae : AE) :
     isIdentityAcceptable (sortStable ae) = true ↔ permits ae .identity := by
   unfold isIdentityAcceptable permits
   by_cases hem : (sortStable ae).isEmpty = true
@@ -73,9 +74,9 @@ theorem identityAcceptable_iff (ae : AE) :
     cases hfi : (sortStable ae).find? isIdentityItem with
     | some qi =>
       have hmem := mem_sortStable.mp (List.mem_of_find?_eq_some hfi)
-      have hit := (isIdentityItem_iff qi).mp (List.find?_some hfi)
+      have hit := (C13_aux_isIdentityItem_iff qi).mp (List.find?_some hfi)
       have hq : qi.q ∈ explicitQs ae .identity := by
-        apply mem_explicitQs.mpr
+        apply C13_aux_mem_explicitQs.mpr
         have : qi = ⟨.specific .identity, qi.q⟩ := by cases qi; simp_all
         rw [← this]; exact hmem
       have hne : explicitQs ae .identity ≠ [] := List.ne_nil_of_mem hq
@@ -84,7 +85,7 @@ theorem identityAcceptable_iff (ae : AE) :
       · intro h; exact ⟨qi.q, hq, h⟩
       · rintro ⟨q, hq', hpos⟩
         have hm' : (⟨.specific .identity, q⟩ : QItem) ∈ sortStable ae :=
-          mem_sortStable.mpr (mem_explicitQs.mp hq')
+          mem_sortStable.mpr (C13_aux_mem_explicitQs.mp hq')
         have := find?_max (sorted_sortStable ae) hfi _ hm' (by simp [isIdentityItem])
         have := q_le_of_score_le this
         simp only at this
@@ -93,16 +94,16 @@ theorem identityAcceptable_iff (ae : AE) :
       have hnone : explicitQs ae .identity = [] := by
         apply List.eq_nil_iff_forall_not_mem.mpr
         intro q hq
-        have hm' := mem_sortStable.mpr (mem_explicitQs.mp hq)
+        have hm' := mem_sortStable.mpr (C13_aux_mem_explicitQs.mp hq)
         have := List.find?_eq_none.mp hfi _ hm'
         simp [isIdentityItem] at this
       simp only [hnone, ne_eq, not_true_eq_false, ↓reduceIte]
       cases hfa : (sortStable ae).find? isAnyItem with
       | some qi =>
         have hmem := mem_sortStable.mp (List.mem_of_find?_eq_some hfa)
-        have hit := (isAnyItem_iff qi).mp (List.find?_some hfa)
+        have hit := (C13_aux_isAnyItem_iff qi).mp (List.find?_some hfa)
         have hq : qi.q ∈ starQs ae := by
-          apply mem_starQs.mpr
+          apply C13_aux_mem_starQs.mpr
           have : qi = ⟨.any, qi.q⟩ := by cases qi; simp_all
           rw [← this]; exact hmem
         have hne : starQs ae ≠ [] := List.ne_nil_of_mem hq
@@ -110,7 +111,7 @@ theorem identityAcceptable_iff (ae : AE) :
         constructor
         · intro h; exact ⟨qi.q, hq, h⟩
         · rintro ⟨q, hq', hpos⟩
-          have hm' : (⟨.any, q⟩ : QItem) ∈ sortStable ae := mem_sortStable.mpr (mem_starQs.mp hq')
+          have hm' : (⟨.any, q⟩ : QItem) ∈ sortStable ae := mem_sortStable.mpr (C13_aux_mem_starQs.mp hq')
           have := find?_max (sorted_sortStable ae) hfa _ hm' (by simp [isAnyItem])
           have := q_le_of_score_le this
           simp only at this
@@ -119,14 +120,14 @@ theorem identityAcceptable_iff (ae : AE) :
         have hnone' : starQs ae = [] := by
           apply List.eq_nil_iff_forall_not_mem.mpr
           intro q hq
-          have hm' := mem_sortStable.mpr (mem_starQs.mp hq)
+          have hm' := mem_sortStable.mpr (C13_aux_mem_starQs.mp hq)
           have := List.find?_eq_none.mp hfa _ hm'
           simp [isAnyItem] at this
         simp [hnone']
 
 /-- what the `.find(..)` of `negotiate` returns, if anything, is a supported coding listed
 explicitly with a non-zero weight -/
-theorem matched_spec {ae : AE} {sup : List Coding} {qi : QItem}
+theorem C13_aux_matched_spec {ae : AE} {sup : List Coding} {qi : QItem}
     (h : ((sortStable ae).filter (fun qi => decide (qi.q > 0))).find? (matchesSupported sup) = some qi) :
     ∃ c, qi.item = .specific c ∧ c ∈ sup ∧ 0 < qi.q ∧ qi ∈ ae := by
   have hp := List.find?_some h
@@ -140,7 +141,7 @@ theorem matched_spec {ae : AE} {sup : List Coding} {qi : QItem}
     exact ⟨c, rfl, hp, hm.2, mem_sortStable.mp hm.1⟩
 
 /-- the three ways `negotiate` can answer `some c` -/
-theorem negotiate_cases {ae : AE} {sup : List Coding} {c : Coding} (h : negotiate ae sup = some c) :
+theorem C13_aux_negotiate_cases {ae : AE} {sup : List Coding} {c : Coding} (h : negotiate ae sup = some c) :
     (ae = [] ∧ c = .identity) ∨
     (ae ≠ [] ∧ c = .identity ∧ isIdentityAcceptable (sortStable ae) = true ∧
       (((sortStable ae).filter (fun qi => decide (qi.q > 0))).find? (matchesSupported sup) = none ∨
@@ -177,7 +178,7 @@ theorem negotiate_cases {ae : AE} {sup : List Coding} {c : Coding} (h : negotiat
             cases hf : ((sortStable ae).filter (fun qi => decide (qi.q > 0))).find? (matchesSupported sup) with
             | none => rfl
             | some qi =>
-              obtain ⟨c', hi, _, _, _⟩ := matched_spec hf
+              obtain ⟨c', hi, _, _, _⟩ := C13_aux_matched_spec hf
               exact absurd (by cases qi; simp_all) (hnot c' qi.q)
           · simp at h
 
@@ -188,13 +189,13 @@ supported set — is a coding the header permits (RFC 7231 §5.3.4).  Holds for 
 `fix:` commit; the pre-fix code violates it (`witness_F3_prefix` below). -/
 theorem C13_negotiate_permitted (ae : AE) (sup : List Coding) (c : Coding)
     (h : negotiate ae sup = some c) : permits ae c := by
-  rcases negotiate_cases h with ⟨he, hc⟩ | ⟨_, hc, hid, _⟩ | ⟨_, q, hf⟩
+  rcases C13_aux_negotiate_cases h with ⟨he, hc⟩ | ⟨_, hc, hid, _⟩ | ⟨_, q, hf⟩
   · subst he; subst hc; simp [permits, explicitQs, starQs]
-  · subst hc; exact (identityAcceptable_iff ae).mp hid
-  · obtain ⟨c', hi, _, hq, hm⟩ := matched_spec hf
+  · subst hc; exact (C13_aux_identityAcceptable_iff ae).mp hid
+  · obtain ⟨c', hi, _, hq, hm⟩ := C13_aux_matched_spec hf
     simp only [Pref.specific.injEq] at hi
     subst hi
-    have hq' : q ∈ explicitQs ae c := mem_explicitQs.mpr hm
+    have hq' : q ∈ explicitQs ae c := C13_aux_mem_explicitQs.mpr hm
     unfold permits
     rw [if_pos (List.ne_nil_of_mem hq')]
     exact ⟨q, hq', hq⟩
@@ -205,10 +206,10 @@ example : negotiate [⟨.specific .gzip, 500⟩, ⟨.any, 0⟩] supported = some
 unencoded representation. -/
 theorem C13_negotiate_supported (ae : AE) (sup : List Coding) (c : Coding)
     (h : negotiate ae sup = some c) : c ∈ sup ∨ c = .identity := by
-  rcases negotiate_cases h with ⟨_, hc⟩ | ⟨_, hc, _, _⟩ | ⟨_, q, hf⟩
+  rcases C13_aux_negotiate_cases h with ⟨_, hc⟩ | ⟨_, hc, _, _⟩ | ⟨_, q, hf⟩
   · exact Or.inr hc
   · exact Or.inr hc
-  · obtain ⟨c', hi, hs, _, _⟩ := matched_spec hf
+  · obtain ⟨c', hi, hs, _, _⟩ := C13_aux_matched_spec hf
     simp only [Pref.specific.injEq] at hi
     subst hi; exact Or.inl hs
 
@@ -238,23 +239,634 @@ theorem C13_negotiate_best (ae : AE) (sup : List Coding) (c : Coding)
     ∃ q ∈ explicitQs ae c, q' ≤ q := by
   have hm' : (⟨.specific c', q'⟩ : QItem) ∈ (sortStable ae).filter (fun qi => decide (qi.q > 0)) := by
     simp only [List.mem_filter, decide_eq_true_eq]
-    exact ⟨mem_sortStable.mpr (mem_explicitQs.mp hq'), hpos⟩
+    exact ⟨mem_sortStable.mpr (C13_aux_mem_explicitQs.mp hq'), hpos⟩
   have hp' : matchesSupported sup ⟨.specific c', q'⟩ = true := by
     simp [matchesSupported, hs]
-  rcases negotiate_cases h with ⟨he, _⟩ | ⟨_, hc, hid, hnone | hidsup⟩ | ⟨_, q, hf⟩
+  rcases C13_aux_negotiate_cases h with ⟨he, _⟩ | ⟨_, hc, hid, hnone | hidsup⟩ | ⟨_, q, hf⟩
   · subst he; simp [explicitQs] at hq'
   · exact absurd hp' (by simpa using List.find?_eq_none.mp hnone _ hm')
   · -- early return: the supported set is {identity}
     have : c' = .identity := eq_of_dedup_length_one hidsup.2 hs hidsup.1
     subst this; subst hc
     exact ⟨q', hq', Nat.le_refl _⟩
-  · obtain ⟨c'', hi, _, _, hm⟩ := matched_spec hf
+  · obtain ⟨c'', hi, _, _, hm⟩ := C13_aux_matched_spec hf
     simp only [Pref.specific.injEq] at hi
     subst hi
-    refine ⟨q, mem_explicitQs.mpr hm, ?_⟩
+    refine ⟨q, C13_aux_mem_explicitQs.mpr hm, ?_⟩
     rw [List.find?_filter] at hf
     have := find?_max (sorted_sortStable ae) hf ⟨.specific c', q'⟩
-      (mem_sortStable.mpr (mem_explicitQs.mp hq')) (by simp [hpos, hp'])
+      (mem_sortStable.mpr (C13_aux_mem_explicitQs.mp hq')) (by simp [hpos, hp'])
     exact q_le_of_score_le this
+
+/-- **C13_negotiate_tiebreak**: among supported codings listed with the same (maximal) weight the
+server's ranking br > zstd > gzip > deflate > other decides. -/
+theorem C13_negotiate_tiebreak (ae : AE) (sup : List Coding) (c : Coding)
+    (h : negotiate ae sup = some c) (c' : Coding) (hs : c' ∈ sup) (q : Nat)
+    (hq : q ∈ explicitQs ae c') (hpos : 0 < q) (hmax : ∀ q'' ∈ explicitQs ae c, q'' ≤ q) :
+    encodingRank ⟨.specific c', q⟩ ≤ encodingRank ⟨.specific c, q⟩ := by
+  have hm' : (⟨.specific c', q⟩ : QItem) ∈ (sortStable ae).filter (fun qi => decide (qi.q > 0)) := by
+    simp only [List.mem_filter, decide_eq_true_eq]
+    exact ⟨mem_sortStable.mpr (C13_aux_mem_explicitQs.mp hq), hpos⟩
+  have hp' : matchesSupported sup ⟨.specific c', q⟩ = true := by simp [matchesSupported, hs]
+  rcases C13_aux_negotiate_cases h with ⟨he, _⟩ | ⟨_, hc, hid, hnone | hidsup⟩ | ⟨_, qc, hf⟩
+  · subst he; simp [explicitQs] at hq
+  · exact absurd hp' (by simpa using List.find?_eq_none.mp hnone _ hm')
+  · have : c' = .identity := eq_of_dedup_length_one hidsup.2 hs hidsup.1
+    subst this; subst hc; exact Nat.le_refl _
+  · obtain ⟨c'', hi, _, _, hm⟩ := C13_aux_matched_spec hf
+    simp only [Pref.specific.injEq] at hi
+    subst hi
+    rw [List.find?_filter] at hf
+    have hsc := find?_max (sorted_sortStable ae) hf ⟨.specific c', q⟩
+      (mem_sortStable.mpr (C13_aux_mem_explicitQs.mp hq)) (by simp [hpos, hp'])
+    have hle := hmax qc (C13_aux_mem_explicitQs.mpr hm)
+    have hge := q_le_of_score_le hsc
+    simp only at hge
+    have : qc = q := by omega
+    subst this
+    simp only [score] at hsc
+    omega
+
+/-! ## F3: the code before the `fix:` commit (kept as a kernel-checked counter-example) -/
+
+/-- Before the fix `Accept-Encoding: *, identity;q=0` negotiated `identity`, which the header
+forbids: `C13_negotiate_permitted` is false of the pre-fix code. -/
+theorem witness_F3_prefix :
+    negotiatePreFix [⟨.any, 1000⟩, ⟨.specific .identity, 0⟩] supported = some .identity ∧
+    ¬ permits [⟨.any, 1000⟩, ⟨.specific .identity, 0⟩] .identity := by decide
+
+/-- …and the fixed code answers 406 on the same header. -/
+theorem witness_F3_fixed :
+    negotiate [⟨.any, 1000⟩, ⟨.specific .identity, 0⟩] supported = none := by decide
+
+/-- `negotiate` answers `None` (⇒ 406) only when the header really excludes the unencoded
+representation and lists no supported coding with a non-zero weight. -/
+theorem C13_not_acceptable_justified (ae : AE) (sup : List Coding) (hs : sup ≠ [])
+    (h : negotiate ae sup = none) :
+    ¬ permits ae .identity ∧ ∀ c ∈ sup, ∀ q ∈ explicitQs ae c, q = 0 := by
+  unfold negotiate negotiateWith at h
+  split at h
+  · rename_i he; exact absurd (List.isEmpty_iff.mp he) hs
+  · split at h
+    · simp at h
+    · rename_i he
+      have hr : rankedItems ae = sortStable ae := rankedItems_of_ne_nil (by simpa using he)
+      simp only [hr] at h
+      split at h
+      · simp at h
+      · split at h
+        · simp at h
+        · rename_i hnot
+          split at h
+          · simp at h
+          · rename_i hid
+            refine ⟨fun hp => hid ((C13_aux_identityAcceptable_iff ae).mpr hp), ?_⟩
+            intro c hc q hq
+            apply Nat.eq_zero_of_not_pos
+            intro hpos
+            have hm' : (⟨.specific c, q⟩ : QItem) ∈ (sortStable ae).filter (fun qi => decide (qi.q > 0)) := by
+              simp only [List.mem_filter, decide_eq_true_eq]
+              exact ⟨mem_sortStable.mpr (C13_aux_mem_explicitQs.mp hq), hpos⟩
+            have hp' : matchesSupported sup ⟨.specific c, q⟩ = true := by simp [matchesSupported, hc]
+            cases hf : ((sortStable ae).filter (fun qi => decide (qi.q > 0))).find? (matchesSupported sup) with
+            | none => exact absurd hp' (by simpa using List.find?_eq_none.mp hf _ hm')
+            | some qi =>
+              obtain ⟨c', hi, _, _, _⟩ := C13_aux_matched_spec hf
+              exact absurd (by cases qi; simp_all) (hnot c' qi.q)
+
+/-! ## Codec law -/
+
+variable {σ : Type}
+
+/-- The law assumed of a compression library and its decoder `D`: whatever chunks are written
+(each followed by a `take`, as `poll_next` does on both of its paths), the bytes taken, followed
+by the `finish` output, decode to the concatenation of the chunks. -/
+def Lossless (c : Codec σ) (D : Bytes → Option Bytes) : Prop :=
+  ∀ xs : List Bytes, D (encRest c c.init xs) = some xs.flatten
+
+theorem C13_aux_toy_encRest (s : ToyState) (xs : List Bytes) :
+    encRest toyCodec s xs =
+      s.outb ++ s.pend ++ xs.flatten ++ [UInt8.ofNat ((s.total + xs.flatten.length) % 256)] := by
+  induction xs generalizing s with
+  | nil => simp [encRest, toyCodec]
+  | cons x t ih =>
+    rw [encRest, ih]
+    simp only [toyCodec]
+    split <;> simp [Nat.add_assoc]
+
+/-- the law is satisfiable: the store-codec of the line driver obeys it (so the theorems below
+are not vacuous) -/
+theorem C13_toy_lossless : Lossless toyCodec toyDecode := by
+  intro xs
+  rw [C13_aux_toy_encRest]
+  simp [toyCodec, toyDecode]
+
+/-! ## The body stream -/
+
+/-- **C13_stream_lossless**: for every codec obeying the law, every chunking of every body, every
+placement of `Pending`s, every completion schedule of the blocking tasks and *every* split between
+the in-place and the blocking path: if the handler's body does not fail, the encoder's stream ends
+with `Ready(None)` and the emitted chunks decode to exactly the handler's bytes. -/
+theorem C13_stream_lossless (inPlace : Bytes → Bool) (c : Codec σ) (D : Bytes → Option Bytes)
+    (hl : Lossless c D) (cd : Coding) (body : List BodyEv) (joins : List Nat)
+    (hb : hasErr body = false) (fuel : Nat) (hf : fuelFor (initEnc c (.encode cd)) body joins ≤ fuel) :
+    D (outChunks (driveAt inPlace c fuel (initEnc c (.encode cd)) body joins)).flatten
+        = some (chunksOf body).flatten ∧
+    (driveAt inPlace c fuel (initEnc c (.encode cd)) body joins).getLast? = some .done := by
+  have hmu : mu (initEnc c (.encode cd)) body joins < fuel := by
+    simp only [fuelFor, initEnc] at hf; simp only [mu, initEnc]; omega
+  obtain ⟨h1, h2⟩ := drive_rem inPlace c fuel _ body joins hb hmu
+  refine ⟨?_, h2⟩
+  rw [h1]
+  simp only [rem, initEnc, Bool.false_eq_true, ↓reduceIte]
+  exact hl _
+
+example : hasErr [.chunk [1, 2], .pending, .chunk [], .chunk [3]] = false := by decide
+
+/-- the theorem instantiated with the code's own split and the concrete store-codec -/
+theorem C13_stream_lossless_code (cd : Coding) (body : List BodyEv) (joins : List Nat)
+    (hb : hasErr body = false) :
+    toyDecode (outChunks (drive toyCodec (fuelFor (initEnc toyCodec (.encode cd)) body joins)
+        (initEnc toyCodec (.encode cd)) body joins)).flatten = some (chunksOf body).flatten :=
+  (C13_stream_lossless Encoder.inPlaceCode toyCodec toyDecode C13_toy_lossless cd body joins hb _ (Nat.le_refl _)).1
+
+/-- **C13_terminates**: from *any* encoder state, for any body script (including failing ones)
+and any schedule, the stream ends — `Ready(None)` or an error — within
+`2·|body events| + Σ joins + 3` polls; `fuelFor` polls are always enough. -/
+theorem C13_terminates (inPlace : Bytes → Bool) (c : Codec σ) (s : Enc σ) (body : List BodyEv)
+    (joins : List Nat) (fuel : Nat) (hf : fuelFor s body joins ≤ fuel) :
+    ((driveAt inPlace c fuel s body joins).getLast? = some .done ∨
+      (driveAt inPlace c fuel s body joins).getLast? = some .err) ∧
+    (driveAt inPlace c fuel s body joins).length ≤ 2 * body.length + joins.sum + 3 := by
+  have hmu : mu s body joins < fuel := by simp only [fuelFor] at hf; simp only [mu]; omega
+  obtain ⟨h1, h2⟩ := drive_terminates inPlace c fuel s body joins hmu
+  refine ⟨h1, ?_⟩
+  have : mu s body joins ≤ 2 * body.length + joins.sum + 2 := by
+    simp only [mu]; split <;> split <;> omega
+  omega
+
+/-- **C13_end_stable**: once `poll_next` has answered `Ready(None)` it keeps answering
+`Ready(None)` (whatever the environment would answer). -/
+theorem C13_end_stable (inPlace : Bytes → Bool) (c : Codec σ) (s : Enc σ) (body : List BodyEv)
+    (joins : List Nat) (h : (pollNextAt inPlace c s body joins).1 = .done) (joins' : List Nat) :
+    (pollNextAt inPlace c (pollNextAt inPlace c s body joins).2.1
+      (pollNextAt inPlace c s body joins).2.2.1 joins').1 = .done :=
+  pollNext_done_stable inPlace c s body joins h joins'
+
+/-- **C13_error_propagated**: if the handler's body fails, the encoded stream fails too (it
+never looks complete), provided the encoder has not already finished (`eof` ⇒ no body left). -/
+theorem C13_error_propagated (inPlace : Bytes → Bool) (c : Codec σ) (s : Enc σ) (body : List BodyEv)
+    (joins : List Nat) (hs : s.eof = false) (hb : hasErr body = true) (fuel : Nat)
+    (hf : fuelFor s body joins ≤ fuel) :
+    (driveAt inPlace c fuel s body joins).getLast? = some .err := by
+  have hmu : mu s body joins < fuel := by simp only [fuelFor] at hf; simp only [mu]; omega
+  exact drive_err inPlace c fuel s body joins hs hb hmu
+
+/-! ## Pass-through -/
+
+/-- the responses that must not be re-encoded -/
+def MustPass (encoding : Coding) (h : Head) (size : BodySize) : Prop :=
+  hContains h.headers "content-encoding" = true ∨ h.status = 101 ∨ h.status = 204 ∨ h.status = 206 ∨
+    size = .none ∨ size = .sized 0 ∨ encoding = .identity
+
+/-- **C13_passthrough** (head): already encoded / 101 / 204 / 206 / no body / empty body /
+identity negotiated ⇒ `Encoder::response` leaves the head untouched, installs no compressor and
+reports the body's own size. -/
+theorem C13_passthrough (encoding : Coding) (h : Head) (size : BodySize) (hp : MustPass encoding h size) :
+    (response encoding h size).1 = h ∧ (∀ c, (response encoding h size).2 ≠ .encode c) ∧
+    encSize (response encoding h size).2 size = size := by
+  unfold response
+  split
+  · simp [encSize]
+  · simp [encSize]
+  · rename_i hn h0
+    have hse : shouldEncode encoding h = false := by
+      rcases hp with hp | hp | hp | hp | hp | hp | hp
+      · simp [shouldEncode, hp]
+      · simp [shouldEncode, hp]
+      · simp [shouldEncode, hp]
+      · simp [shouldEncode, hp]
+      · exact absurd hp hn
+      · exact absurd hp h0
+      · simp [shouldEncode, hp]
+    simp [hse, encSize]
+
+example : MustPass .gzip ⟨206, [("content-range", "bytes 0-1/10")], false⟩ (.sized 2) := by
+  simp [MustPass]
+
+/-- **C13_passthrough_stream**: without a compressor (`Mode.plain`) the stream hands over the
+body's chunks one for one — same bytes, same boundaries, empty chunks included — and ends as the
+body ends: `Ready(None)`, or the error if the body fails (chunks before the failure delivered). -/
+theorem C13_passthrough_stream (inPlace : Bytes → Bool) (c : Codec σ) (body : List BodyEv)
+    (joins : List Nat) (fuel : Nat) (hf : fuelFor (initEnc c .plain) body joins ≤ fuel) :
+    outChunks (driveAt inPlace c fuel (initEnc c .plain) body joins) = chunksOf body ∧
+    (driveAt inPlace c fuel (initEnc c .plain) body joins).getLast?
+      = some (if hasErr body then .err else .done) := by
+  have : 2 * body.length < fuel := by simp only [fuelFor, initEnc] at hf; simp at hf; omega
+  exact drive_plain inPlace c fuel body joins this
+
+/-- the two constructors that never poll the body: `Encoder::none()` / `Encoder::empty()` -/
+theorem C13_passthrough_nobody (inPlace : Bytes → Bool) (c : Codec σ) (m : Mode)
+    (hm : m = .none ∨ m = .empty) (b : RespBody) (joins : List Nat) (fuel : Nat) :
+    encBodyEvs m b = [] ∧ driveAt inPlace c (fuel + 1) (initEnc c m) (encBodyEvs m b) joins = [.done] := by
+  rcases hm with rfl | rfl <;> simp [encBodyEvs, initEnc, driveAt, pollNextAt]
+
+/-! ## Head of an encoded response -/
+
+/-- **C13_head**: when a compressor is installed, the label is the negotiated coding (exactly one
+`Content-Encoding` value), `Vary: accept-encoding` is appended after the handler's own `Vary`
+values, every other header and the status are untouched, chunking is re-enabled and the body's
+size becomes `Stream` — so the handler's length is never announced for the encoded bytes; and
+this happens only for responses that may be encoded. -/
+theorem C13_head (encoding : Coding) (h : Head) (size : BodySize) (c : Coding)
+    (hm : (response encoding h size).2 = .encode c) :
+    c = encoding ∧ selectable c = true ∧ ¬ MustPass encoding h size ∧
+    (response encoding h size).1.status = h.status ∧
+    hGetAll (response encoding h size).1.headers "content-encoding" = [c.name] ∧
+    hGetAll (response encoding h size).1.headers "vary" = hGetAll h.headers "vary" ++ ["accept-encoding"] ∧
+    (∀ k, k ≠ "content-encoding" → k ≠ "vary" →
+      hGetAll (response encoding h size).1.headers k = hGetAll h.headers k) ∧
+    (response encoding h size).1.noChunking = false ∧
+    encSize (response encoding h size).2 size = .stream := by
+  unfold response at hm ⊢
+  split at hm
+  · simp at hm
+  · simp at hm
+  · rename_i hn h0
+    split at hm
+    · rename_i hc0
+      have hc := hc0
+      simp only [Bool.and_eq_true] at hc
+      have hce : c = encoding := by simpa using hm.symm
+      subst hce
+      rw [if_pos hc0]
+      have hse := hc.1
+      simp only [shouldEncode, Bool.not_eq_true', Bool.or_eq_false_iff, beq_eq_false_iff_ne] at hse
+      refine ⟨rfl, hc.2, ?_, rfl, ?_, ?_, ?_, rfl, rfl⟩
+      · rintro (hp | hp | hp | hp | hp | hp | hp)
+        · simp [hp] at hse
+        · exact hse.1.1.1.2 (by simp [hp])
+        · exact hse.1.1.2 (by simp [hp])
+        · exact hse.1.2 (by simp [hp])
+        · exact hn hp
+        · exact h0 hp
+        · exact hse.2 hp
+      · have : hGetAll h.headers "content-encoding" = [] := by
+          have := hse.1.1.1.1
+          simp only [hContains, List.any_eq_false, beq_iff_eq] at this
+          simp only [hGetAll, List.map_eq_nil_iff, List.filter_eq_nil_iff, beq_iff_eq]
+          exact this
+        simp [updateHead, hGetAll, hAppend, hInsert, List.filter_append, List.filter_filter]
+      · simp [updateHead, hGetAll, hAppend, hInsert, List.filter_append, List.filter_filter]
+        congr 1
+        apply List.filter_congr
+        intro x _
+        by_cases hx : x.1 = "vary" <;> simp [hx]
+      · intro k hk1 hk2
+        simp [updateHead, hGetAll, hAppend, hInsert, List.filter_append, List.filter_filter, Ne.symm hk1, Ne.symm hk2]
+        congr 1
+        apply List.filter_congr
+        intro x _
+        by_cases hx : x.1 = k <;> simp [hx, hk1]
+    · simp at hm
+
+example : (response .gzip ⟨200, [("vary", "origin")], true⟩ (.sized 10)).2 = .encode .gzip := by decide
+
+/-- **C13_no_stale_length**: an encoded response is framed `transfer-encoding: chunked` on an h1
+connection and carries no `Content-Length` at all — whatever length the handler's body had and
+whatever `Content-Length` header the handler set (and even if the handler had disabled chunking). -/
+theorem C13_no_stale_length (encoding : Coding) (h : Head) (size : BodySize) (c : Coding)
+    (hm : (response encoding h size).2 = .encode c) (hcl : Option String) :
+    h1Framing (encSize (response encoding h size).2 size) (response encoding h size).1.noChunking hcl
+      = (true, none) := by
+  obtain ⟨_, _, _, _, _, _, _, hnc, hsz⟩ := C13_head encoding h size c hm
+  rw [hsz, hnc]; rfl
+
+/-- …while a response that is passed through keeps the framing its own size dictates. -/
+theorem C13_passthrough_framing (encoding : Coding) (h : Head) (size : BodySize)
+    (hp : MustPass encoding h size) (hcl : Option String) :
+    h1Framing (encSize (response encoding h size).2 size) (response encoding h size).1.noChunking hcl
+      = h1Framing size h.noChunking hcl := by
+  obtain ⟨h1, _, h3⟩ := C13_passthrough encoding h size hp
+  rw [h3, h1]
+
+/-! ## The middleware as a whole -/
+
+/-- the bytes the handler's body stands for -/
+def handlerBytes (b : RespBody) : Bytes :=
+  match b.bytes with
+  | some bs => bs
+  | none => (chunksOf b.evs).flatten
+
+theorem C13_aux_chunksOf_encBodyEvs (m : Mode) (b : RespBody) (hm : m ≠ .none) (hm' : m ≠ .empty) :
+    (chunksOf (encBodyEvs m b)).flatten = handlerBytes b := by
+  unfold encBodyEvs handlerBytes
+  cases m with
+  | none => exact absurd rfl hm
+  | empty => exact absurd rfl hm'
+  | plain =>
+    cases hb : b.bytes with
+    | none => simp
+    | some bs => by_cases he : bs.isEmpty <;> simp_all [chunksOf]
+  | encode c =>
+    cases hb : b.bytes with
+    | none => simp
+    | some bs => by_cases he : bs.isEmpty <;> simp_all [chunksOf]
+
+theorem C13_aux_hasErr_encBodyEvs (m : Mode) (b : RespBody) (h : hasErr b.evs = false) :
+    hasErr (encBodyEvs m b) = false := by
+  unfold encBodyEvs
+  cases m <;> simp only [hasErr]
+  all_goals (cases b.bytes with
+    | none => simpa using h
+    | some bs => by_cases he : bs.isEmpty <;> simp [he, hasErr])
+
+/-- the record `compress` builds once a coding has been settled -/
+def mkResp (enc : Coding) (h : Head) (b : RespBody) : MwResp :=
+  { head := (response enc h b.size).1, mode := (response enc h b.size).2,
+    size := encSize (response enc h b.size).2 b.size, evs := encBodyEvs (response enc h b.size).2 b }
+
+theorem C13_aux_compress_cases (ae : AE) (h : Head) (ct : Option (String × String)) (b : RespBody) :
+    (negotiate ae supported = none ∧ compress (some ae) h ct b = notAcceptableResp) ∨
+    (∃ c0 enc, negotiate ae supported = some c0 ∧ (enc = c0 ∨ enc = .identity) ∧
+      compress (some ae) h ct b = mkResp enc h b) := by
+  cases hn : negotiate ae supported with
+  | none => left; simp [compress, mwNegotiate, hn]
+  | some c0 =>
+    right
+    by_cases hpred : compressPredicate ct = true
+    · exact ⟨c0, c0, rfl, Or.inl rfl, by simp [compress, mwNegotiate, hn, hpred, mkResp]⟩
+    · exact ⟨c0, .identity, rfl, Or.inr rfl, by simp [compress, mwNegotiate, hn, hpred, mkResp]⟩
+
+/-- **C13_compress_sound**: `Compress` around any handler response, for a request with any
+(present) Accept-Encoding `ae`, any content type, any body script without failure, any schedule,
+any split, any family of lawful codecs.  If the middleware installs a compressor for coding `cd`
+then (1) `ae` permits `cd`, (2) the response is labelled with exactly `cd` and gets
+`Vary: accept-encoding` after the handler's own values, (3) its size is `Stream`, (4) the stream
+ends and decodes to the handler's bytes. -/
+theorem C13_compress_sound (inPlace : Bytes → Bool) (codec : Coding → Codec σ)
+    (D : Coding → Bytes → Option Bytes) (hl : ∀ cd, selectable cd = true → Lossless (codec cd) (D cd))
+    (ae : AE) (h : Head) (ct : Option (String × String)) (b : RespBody) (joins : List Nat)
+    (hb : hasErr b.evs = false) (cd : Coding) (hm : (compress (some ae) h ct b).mode = .encode cd) :
+    permits ae cd ∧
+    hGetAll (compress (some ae) h ct b).head.headers "content-encoding" = [cd.name] ∧
+    hGetAll (compress (some ae) h ct b).head.headers "vary" = hGetAll h.headers "vary" ++ ["accept-encoding"] ∧
+    (compress (some ae) h ct b).size = .stream ∧
+    ∀ fuel, fuelFor (initEnc (codec cd) (.encode cd)) (compress (some ae) h ct b).evs joins ≤ fuel →
+      D cd (outChunks (driveAt inPlace (codec cd) fuel (initEnc (codec cd) (.encode cd))
+        (compress (some ae) h ct b).evs joins)).flatten = some (handlerBytes b) ∧
+      (driveAt inPlace (codec cd) fuel (initEnc (codec cd) (.encode cd))
+        (compress (some ae) h ct b).evs joins).getLast? = some .done := by
+  rcases C13_aux_compress_cases ae h ct b with ⟨_, hc⟩ | ⟨c0, enc, hn, henc, hc⟩
+  · rw [hc] at hm; simp [notAcceptableResp] at hm
+  · rw [hc] at hm ⊢
+    simp only [mkResp] at hm ⊢
+    obtain ⟨hcd, hsel, hnp, _, hce, hvary, _, _, hsz⟩ := C13_head enc h b.size cd hm
+    subst hcd
+    have hperm : permits ae cd := by
+      rcases henc with rfl | rfl
+      · exact C13_negotiate_permitted ae supported _ hn
+      · exact absurd (by simp [MustPass]) hnp
+    refine ⟨hperm, hce, hvary, hsz, ?_⟩
+    intro fuel hf
+    rw [hm] at hf ⊢
+    have := C13_stream_lossless inPlace (codec cd) (D cd) (hl cd hsel) cd
+      (encBodyEvs (.encode cd) b) joins (C13_aux_hasErr_encBodyEvs _ b hb) fuel hf
+    rw [C13_aux_chunksOf_encBodyEvs _ b (by simp) (by simp)] at this
+    exact this
+
+/-- …and when no compressor is installed the response is the 406 answer or carries the handler's
+own head (and, by `C13_passthrough_stream`, the handler's own chunks). -/
+theorem C13_compress_untouched (ae : Option AE) (h : Head) (ct : Option (String × String)) (b : RespBody)
+    (hm : ∀ cd, (compress ae h ct b).mode ≠ .encode cd) :
+    (compress ae h ct b).head = h ∨ (compress ae h ct b) = notAcceptableResp := by
+  have key : ∀ enc, (∀ cd, (mkResp enc h b).mode ≠ .encode cd) → (mkResp enc h b).head = h := by
+    intro enc hne
+    simp only [mkResp] at hne ⊢
+    unfold response at hne ⊢
+    split
+    · rfl
+    · rfl
+    · split
+      · rename_i hc; simp [hc] at hne
+      · rfl
+  cases ae with
+  | none =>
+    left
+    have hp := C13_passthrough .identity h b.size (by simp [MustPass])
+    unfold compress mwNegotiate
+    by_cases hpred : compressPredicate ct = true <;> simp [hpred, hp.1]
+  | some ae =>
+    rcases C13_aux_compress_cases ae h ct b with ⟨_, hc⟩ | ⟨c0, enc, _, _, hc⟩
+    · exact Or.inr hc
+    · rw [hc] at hm ⊢; exact Or.inl (key enc hm)
+
+/-- no Accept-Encoding header ⇒ nothing is encoded, whatever the handler answers -/
+theorem C13_no_header_no_encoding (h : Head) (ct : Option (String × String)) (b : RespBody) :
+    (compress none h ct b).head = h ∧ ∀ c, (compress none h ct b).mode ≠ .encode c := by
+  have hp := C13_passthrough .identity h b.size (by simp [MustPass])
+  unfold compress mwNegotiate
+  simp only
+  by_cases hpred : compressPredicate ct = true
+  · simp only [hpred, ↓reduceIte]; exact ⟨hp.1, hp.2.1⟩
+  · simp only [hpred, Bool.false_eq_true, ↓reduceIte]; exact ⟨hp.1, hp.2.1⟩
+
+/-! ## Request side: `Decoder` (`dev::Decompress`) -/
+
+/-- The law assumed of a decompression library for the coding whose compressed image of `orig` is
+`E orig`: however the image is cut into chunks, feeding them succeeds and the outputs, followed by
+the `feed_eof` output, are `orig`. -/
+def DecLossless (d : DCodec σ) (E : Bytes → Bytes) : Prop :=
+  ∀ (orig : Bytes) (xs : List Bytes), xs.flatten = E orig → decRest d d.init xs = some orig
+
+/-- the pass-through "decompressor" obeys the law for the identity coding (non-vacuity) -/
+theorem C13_idDCodec_lossless :
+    DecLossless (σ := Unit) ⟨(), fun _ b => some (b, ()), fun _ => some []⟩ id := by
+  intro orig xs h
+  have : ∀ (xs : List Bytes) (u : Unit),
+      decRest (σ := Unit) ⟨(), fun _ b => some (b, ()), fun _ => some []⟩ u xs = some xs.flatten := by
+    intro xs
+    induction xs with
+    | nil => intro u; simp [decRest]
+    | cons x t ih => intro u; simp [decRest, ih]
+  rw [this, h]; rfl
+
+/-- **C13_request_decoded**: a request body sent with a supported Content-Encoding is delivered
+decoded and equal to the original — for every lawful decompressor, every cut of the compressed
+image into payload chunks, every placement of `Pending`s, every schedule of the blocking tasks and
+every split between the in-place and the blocking path; and the stream ends. -/
+theorem C13_request_decoded (inPlace : Bytes → Bool) (d : DCodec σ) (E : Bytes → Bytes)
+    (hl : DecLossless d E) (orig : Bytes) (body : List BodyEv) (joins : List Nat)
+    (hb : hasErr body = false) (henc : (chunksOf body).flatten = E orig) (fuel : Nat)
+    (hf : dFuelFor (initDec d true) body joins ≤ fuel) :
+    (outChunks (dDriveAt inPlace d fuel (initDec d true) body joins)).flatten = orig ∧
+    (dDriveAt inPlace d fuel (initDec d true) body joins).getLast? = some .done := by
+  have hmu : muD (initDec d true) body joins < fuel := by
+    simp only [dFuelFor, initDec] at hf; simp only [muD, initDec]; omega
+  apply dDrive_rem inPlace d fuel _ body joins orig hb _ hmu
+  simp only [remD, initDec, ↓reduceIte, Bool.false_eq_true]
+  exact hl orig _ henc
+
+/-- without a decompressor (no / `identity` / unknown Content-Encoding) the payload is handed on
+as it is -/
+theorem C13_request_passthrough (inPlace : Bytes → Bool) (d : DCodec σ) (body : List BodyEv)
+    (joins : List Nat) (hb : hasErr body = false) (fuel : Nat)
+    (hf : dFuelFor (initDec d false) body joins ≤ fuel) :
+    (outChunks (dDriveAt inPlace d fuel (initDec d false) body joins)).flatten = (chunksOf body).flatten ∧
+    (dDriveAt inPlace d fuel (initDec d false) body joins).getLast? = some .done := by
+  have hmu : muD (initDec d false) body joins < fuel := by
+    simp only [dFuelFor, initDec] at hf; simp only [muD, initDec]; omega
+  apply dDrive_rem inPlace d fuel _ body joins _ hb _ hmu
+  simp [remD, initDec]
+
+/-- **C13_request_terminates**: from any decoder state, any payload script and schedule, the
+decoded stream ends (`Ready(None)` or an error) within `2·|events| + Σ joins + 3` polls. -/
+theorem C13_request_terminates (inPlace : Bytes → Bool) (d : DCodec σ) (s : Dec σ) (body : List BodyEv)
+    (joins : List Nat) (fuel : Nat) (hf : dFuelFor s body joins ≤ fuel) :
+    ((dDriveAt inPlace d fuel s body joins).getLast? = some .done ∨
+      (dDriveAt inPlace d fuel s body joins).getLast? = some .err) ∧
+    (dDriveAt inPlace d fuel s body joins).length ≤ 2 * body.length + joins.sum + 3 := by
+  have hmu : muD s body joins < fuel := by simp only [dFuelFor] at hf; simp only [muD]; omega
+  obtain ⟨h1, h2⟩ := dDrive_terminates inPlace d fuel s body joins hmu
+  refine ⟨h1, ?_⟩
+  have : muD s body joins ≤ 2 * body.length + joins.sum + 2 := by
+    simp only [muD]; split <;> split <;> omega
+  omega
+
+/-- which labels get a decompressor: exactly br / gzip / deflate / zstd, case-insensitively,
+surrounding blanks ignored (finite table) -/
+theorem C13_decoder_selection :
+    decoderFor none = none ∧ decoderFor (some "identity") = none ∧ decoderFor (some "x-foo") = none ∧
+    decoderFor (some "gzip") = some .gzip ∧ decoderFor (some " GZip ") = some .gzip ∧
+    decoderFor (some "br") = some .br ∧ decoderFor (some "deflate") = some .deflate ∧
+    decoderFor (some "zstd") = some .zstd := by decide
+
+/-! ### the driver's streaming store-decoder obeys the decompressor law -/
+
+/-- what `toyCodec` makes of a body -/
+def toyImage (orig : Bytes) : Bytes := [0x54] ++ orig ++ [UInt8.ofNat (orig.length % 256)]
+
+theorem C13_aux_toyImage (orig : Bytes) : encRest toyCodec toyCodec.init [orig] = toyImage orig := by
+  rw [C13_aux_toy_encRest]; simp [toyCodec, toyImage]
+
+theorem C13_aux_fold_none (bs : Bytes) : bs.foldl toyDecStep none = none := by
+  induction bs with
+  | nil => rfl
+  | cons x t ih => simpa [toyDecStep] using ih
+
+theorem C13_aux_fold_shift (bs : Bytes) : ∀ (acc : Bytes) (s : ToyDec),
+    bs.foldl toyDecStep (some (acc, s)) =
+      (bs.foldl toyDecStep (some ([], s))).map (fun r => (r.1 ++ acc, r.2)) := by
+  induction bs with
+  | nil => intro acc s; simp
+  | cons x t ih =>
+    intro acc s
+    simp only [List.foldl_cons]
+    cases hs : toyDecStep (some ([], s)) x with
+    | none =>
+      have : toyDecStep (some (acc, s)) x = none := by
+        simp only [toyDecStep] at hs ⊢
+        split at hs <;> simp_all
+        split at hs <;> simp_all
+      rw [this, C13_aux_fold_none]; simp
+    | some r =>
+      obtain ⟨a0, s'⟩ := r
+      have : toyDecStep (some (acc, s)) x = some (a0 ++ acc, s') := by
+        simp only [toyDecStep] at hs ⊢
+        split at hs
+        · split at hs <;> simp_all
+        · split at hs <;> simp_all
+          obtain ⟨h1, h2⟩ := hs
+          subst h1; simp
+      rw [this, ih (a0 ++ acc) s', ih a0 s']
+      cases t.foldl toyDecStep (some ([], s')) <;> simp
+
+theorem C13_aux_feed_append (s : ToyDec) (a b : Bytes) :
+    toyDCodec.feed s (a ++ b) =
+      match toyDCodec.feed s a with
+      | none => none
+      | some r => (toyDCodec.feed r.2 b).map (fun r' => (r.1 ++ r'.1, r'.2)) := by
+  simp only [toyDCodec, List.foldl_append]
+  cases h : a.foldl toyDecStep (some ([], s)) with
+  | none => simp [C13_aux_fold_none]
+  | some r =>
+    obtain ⟨acc1, s1⟩ := r
+    rw [C13_aux_fold_shift b acc1 s1]
+    cases hw : List.foldl toyDecStep (some ([], s1)) b with
+    | none => simp [hw]
+    | some w => simp [hw]
+
+theorem C13_aux_decRest_toy (xs : List Bytes) : ∀ s : ToyDec,
+    decRest toyDCodec s xs =
+      match toyDCodec.feed s xs.flatten with
+      | none => none
+      | some r => (toyDCodec.feedEof r.2).map (r.1 ++ ·) := by
+  induction xs with
+  | nil => intro s; simp [decRest, toyDCodec]
+  | cons x t ih =>
+    intro s
+    simp only [decRest, List.flatten_cons, C13_aux_feed_append]
+    cases hx : toyDCodec.feed s x with
+    | none => rfl
+    | some r =>
+      simp only [ih r.2]
+      cases toyDCodec.feed r.2 t.flatten with
+      | none => rfl
+      | some r' =>
+        simp only [Option.map_some]
+        cases toyDCodec.feedEof r'.2 <;> simp
+
+theorem C13_aux_fold_held (m : Bytes) (t : UInt8) : ∀ (acc : Bytes) (y : UInt8) (n : Nat),
+    (m ++ [t]).foldl toyDecStep (some (acc, ⟨true, some y, n⟩)) =
+      some ((y :: m).reverse ++ acc, ⟨true, some t, n + m.length + 1⟩) := by
+  induction m with
+  | nil => intro acc y n; simp [toyDecStep]
+  | cons x m ih =>
+    intro acc y n
+    simp only [List.cons_append, List.foldl_cons, toyDecStep]
+    simp only [Bool.not_true, Bool.false_eq_true, ↓reduceIte]
+    rw [ih]
+    simp [Nat.add_assoc, Nat.add_comm 1]
+
+theorem C13_aux_feed_image (orig : Bytes) :
+    toyDCodec.feed toyDCodec.init (toyImage orig) =
+      some (orig, ⟨true, some (UInt8.ofNat (orig.length % 256)), orig.length⟩) := by
+  cases orig with
+  | nil => simp [toyDCodec, toyImage, toyDecStep]
+  | cons b m =>
+    simp only [toyDCodec, toyImage, List.cons_append, List.nil_append, List.foldl_cons, toyDecStep]
+    simp only [Bool.not_false, ↓reduceIte, BEq.rfl, Bool.not_true, Bool.false_eq_true]
+    rw [C13_aux_fold_held]
+    simp
+
+/-- **C13_toy_dec_lossless**: the streaming store-decoder of the line driver is lawful for the
+store-codec's image, under every cut of that image (the hypothesis of `C13_request_decoded` is
+satisfiable by a decoder that really buffers, holds bytes back and checks a trailer). -/
+theorem C13_toy_dec_lossless : DecLossless toyDCodec toyImage := by
+  intro orig xs h
+  rw [C13_aux_decRest_toy, h, C13_aux_feed_image]
+  simp [toyDCodec]
+
+/-! ### hypotheses are satisfiable: concrete instances -/
+
+/-- `C13_request_decoded` instantiated with the code's split and the driver's store-decoder -/
+theorem C13_request_decoded_toy (orig : Bytes) (body : List BodyEv) (joins : List Nat)
+    (hb : hasErr body = false) (henc : (chunksOf body).flatten = toyImage orig) :
+    (outChunks (dDriveAt Decoder.inPlaceCode toyDCodec (dFuelFor (initDec toyDCodec true) body joins)
+      (initDec toyDCodec true) body joins)).flatten = orig :=
+  (C13_request_decoded Decoder.inPlaceCode toyDCodec toyImage C13_toy_dec_lossless orig body joins hb henc
+    _ (Nat.le_refl _)).1
+
+-- a payload cut in the middle of the trailer-bearing image, with a Pending in between
+example : (chunksOf [.chunk [0x54, 7], .pending, .chunk [8, 2]]).flatten = toyImage [7, 8] := by decide
+-- a failing body for `C13_error_propagated`
+example : hasErr [.chunk [1], .pending, .err, .chunk [2]] = true := by decide
+-- a header for which `negotiate` answers `None` (`C13_not_acceptable_justified`)
+example : negotiate [⟨.specific .identity, 0⟩, ⟨.specific (.other "compress"), 1000⟩] supported = none := by decide
+-- two supported codings with equal weight (`C13_negotiate_tiebreak`): br wins over gzip
+example : negotiate [⟨.specific .gzip, 800⟩, ⟨.specific .br, 800⟩] supported = some .br := by decide
+-- `C13_compress_sound`: the middleware installs a compressor here
+example : (compress (some [⟨.specific .zstd, 1000⟩]) ⟨200, [("vary", "origin")], false⟩ (some ("text", "plain"))
+    ⟨.stream, none, [.chunk [1, 2, 3]]⟩).mode = .encode .zstd := by decide
 
 end ActixModel.C13
